@@ -135,7 +135,7 @@ pub fn run_case(line: &str) -> String {
     }).unwrap();
     let out = match rx.recv_timeout(Duration::from_secs(120)) {
         Ok(s) => { let _ = h.join(); s }
-        Err(_) => "HANG#".to_string(),
+        Err(_) => "HANG#HANG".to_string(),
     };
     drop(dir);
     out
